@@ -41,6 +41,7 @@ type c17Gen struct {
 	tasks []*c17GTask
 	metas [3]c17GMeta
 	dev   bool // a deviation was injected into the command being built
+	forceC, forceID int // when non-zero, create() uses this channel / task id
 }
 
 const c17G = "* * * * *"
@@ -233,6 +234,9 @@ func (x *c17Gen) create() string {
 	if x.metas[2].set && (x.live(1) != nil || r.Chance(40)) {
 		c = 2
 	}
+	if x.forceC != 0 {
+		c = x.forceC
+	}
 	if x.live(c) != nil {
 		x.g.Count("create:while-active-exists")
 	}
@@ -245,6 +249,9 @@ func (x *c17Gen) create() string {
 	}
 	if id == 0 || r.Chance(10) {
 		id = r.Range(1, 4)
+	}
+	if x.forceID != 0 {
+		id = x.forceID
 	}
 	m := x.metas[c]
 	kind := []int{1, 2, 3, 1, 2, 2}[r.Intn(6)]
@@ -643,6 +650,37 @@ func genC17(g *Gen) {
 				cmds := make([]string, k)
 				for j := range cmds {
 					cmds[j] = x.oneCmd()
+				}
+				if r.Chance(22) { // two creates (plain / runtime-guarded) for ONE channel, different ids, in one batch
+					x.forceC = 1
+					if x.metas[2].set && (x.live(1) != nil || r.Chance(40)) {
+						x.forceC = 2
+					}
+					if x.live(x.forceC) == nil {
+						g.Count("line:batch-two-creates-on-idle-channel")
+					}
+					var free []int
+					for id := 1; id <= 6; id++ {
+						if x.find(x.forceC, id) == nil {
+							free = append(free, id)
+						}
+					}
+					a, b := r.Range(1, 4), 0
+					if len(free) >= 2 {
+						a, b = free[0], free[1]
+					} else {
+						b = 1 + (a+r.Range(0, 2))%4
+					}
+					if r.Chance(70) {
+						cmds = cmds[:2]
+					}
+					pos := r.Intn(len(cmds) - 1)
+					x.forceID = a
+					cmds[pos] = x.create()
+					x.forceID = b
+					cmds[pos+1] = x.create()
+					x.forceC, x.forceID = 0, 0
+					g.Count("line:batch-two-creates-one-channel")
 				}
 				g.Count(fmt.Sprintf("line:batch-%d", k))
 				x.emit("batch " + strings.Join(cmds, " ; "))
